@@ -220,6 +220,29 @@ def run(repo: Repo, chk: Check) -> None:
     chk.ob('R-PATH', ct.qualname, all(p.value.cls.endswith('MichelsonRuntimeError') for p in rej) and len(rej) >= 1, 'rejections raise MichelsonRuntimeError',
            ct.loc, {'rejecting_paths': len(rej)}, what='a rejected view does not raise the view error')
 
+    # the name is read from its literal with MichelineLiteral.get_string: every string literal, the empty one included (a view may be called ""),
+    # comes back as it is; only a non-string literal is refused
+    ML = 'pytezos.michelson.micheline.MichelineLiteral'
+    gs = repo.find_method(ML, 'get_string')
+    chk.require(gs is not None, 'MichelineLiteral.get_string not found')
+
+    class LitHooks(Hooks):
+        def inline(self, it, fi):
+            return fi.qualname == gs.qualname
+
+        def attr(self, it, obj, name, node_):
+            if isinstance(obj, ClassRef) and name == 'literal':
+                return Sym('the_literal', 'str')
+            return NotImplemented
+
+        def truth(self, it, term):
+            return None  # the empty string is falsy: unknown
+
+    r = Interp(repo, LitHooks(), max_depth=1).run_paths(lambda i: i.call_function(FuncRef(gs, ClassRef(ML), True), [], {}, None, force_inline=True))
+    bad = [(p.outcome, vrepr(p.value)[:60], p.cond_repr()[:60]) for p in r if not (p.outcome == 'return' and vrepr(p.value) == '$the_literal')]
+    chk.ob('R-GUARD', gs.qualname, bool(r) and not bad, 'get_string returns every string literal, the empty string included', gs.loc, {'paths': len(r), 'other': bad[:2]},
+           what=f'MichelineLiteral.get_string does not return some string literals ({bad[:1]}): the view named "" (legal: at most 31 characters, none forbidden) is rejected')
+
     chk.set_clause('C32.2')
     cc = repo.func(f'{V}.check_code')
     ncase = 0
